@@ -16,9 +16,13 @@ FRAME = ('sub', A('self', 'asset_bid_ask_frames'), V('asset'))
 NAN = ('ext', 'NAN')
 
 
-def check(ctx):
+def accessors(ctx):
     for col, qn in (('Bid', 'CSVDailyBarDataSource.get_bid'), ('Ask', 'CSVDailyBarDataSource.get_ask')):
         accessor(ctx, qn, col)
+
+
+def check(ctx):
+    accessors(ctx)
     ctx.sub(converter)
     ctx.sub(confinement)
     ctx.sub(handler)
@@ -156,6 +160,13 @@ def converter_columns(ctx):
             for s in T.subterms(t):
                 if s[0] == 'call' and s[1] == ('meth', 'assign'):
                     cols |= {k for k, _ in s[3] if k}
+                # a frame built whole: pandas.DataFrame(rows, columns=[...]) / pandas.DataFrame({'col': ...})
+                if s[0] == 'call' and s[1][0] in ('fn', 'ext') and s[1][1].endswith('DataFrame'):
+                    for k, x in s[3]:
+                        if k == 'columns' and x[0] in ('list', 'tuple'):
+                            cols |= {e[1] for e in x[1] if e[0] == 'str'}
+                    if s[2] and s[2][0][0] == 'dict':
+                        cols |= {kv[0][1] for kv in s[2][0][1] if isinstance(kv, tuple) and kv and isinstance(kv[0], tuple) and kv[0][0] == 'str'}
     _cols['c'], _cols['m'] = cols, ctx.M
     return cols
 
@@ -210,8 +221,11 @@ def converter(ctx):
             ctx.require(ok, 'C06.S3', 'the frame is indexed by the timestamp column and sorted by it [%s]' % tag, fn.site(), tail, key='C06.S3|index-sorted')
         # S4: Open rows +14:30, Close rows +21:00
         offs = row_offsets(p)
-        ctx.require(offs == {'Open': (14, 30), 'Close': (21, 0)}, 'C06.S4', 'open rows are stamped 14:30 and close rows 21:00 [%s]' % tag, fn.site(), offs,
-                    key='C06.S4|offsets')
+        if not offs and not pipeline_known:
+            ctx.undecided('C06.S4', 'open rows are stamped 14:30 and close rows 21:00 [%s]' % tag, fn.site(), 'no per-market offset of the recognised form (Date[Market == label] += offset)')
+        else:
+            ctx.require(offs == {'Open': (14, 30), 'Close': (21, 0)}, 'C06.S4', 'open rows are stamped 14:30 and close rows 21:00 [%s]' % tag, fn.site(), offs,
+                        key='C06.S4|offsets')
         # S5: Bid and Ask are both the Price
         cols = {}
         for w in heap_writes(p):
@@ -223,7 +237,10 @@ def converter(ctx):
                     if kname in o[3]:
                         cols[kname] = o[3][kname]
         okc = set(cols) == {'Bid', 'Ask'} and all(x[0] == 'sub' and x[2] == ('str', 'Price') for x in cols.values()) and cols['Bid'] == cols['Ask']
-        ctx.require(okc, 'C06.S5', 'Bid and Ask are both the bar price [%s]' % tag, fn.site(), {k: fmt(x)[-40:] for k, x in cols.items()}, key='C06.S5|bid-ask')
+        if not cols and not pipeline_known:
+            ctx.undecided('C06.S5', 'Bid and Ask are both the bar price [%s]' % tag, fn.site(), 'the Bid/Ask columns are not built by column assignment')
+        else:
+            ctx.require(okc, 'C06.S5', 'Bid and Ask are both the bar price [%s]' % tag, fn.site(), {k: fmt(x)[-40:] for k, x in cols.items()}, key='C06.S5|bid-ask')
         # adjustment: (Adj Close / Close) * Open and Adj Close, when adjusting
         adj = [w for w in heap_writes(p) if w.loc[0] == 'sub' and w.loc[2] == ('str', 'Adj Open')]
         adjusting = any(fmt(c) == 'self.adjust_prices' and vv for c, vv, _ in p.conds)
@@ -249,6 +266,9 @@ def converter(ctx):
             ren = [w for w in heap_writes(p) if w.loc[0] == 'attr' and w.loc[2] == 'columns' and w.value == ('list', (('str', 'Open'), ('str', 'Close')))]
             want = ('list', (('str', 'Adj Open'), ('str', 'Adj Close')))
             sel = [o for o in ops if o[0] == 'sub' and ((o[1][0] == 'tuple' and len(o[1][1]) == 2 and o[1][1][1] == want) or o[1] == want)]
+            if not pipeline_known and not sel:
+                # the selection happens in a helper whose result is re-assembled later: look for it anywhere on the path
+                sel = [s_ for t_ in all_terms_of(p) for s_ in T.subterms(t_) if s_[0] == 'sub' and ((s_[2][0] == 'tuple' and len(s_[2][1]) == 2 and s_[2][1][1] == want) or s_[2] == want)][:1]
             if ren or sel or pipeline_known:
                 ctx.require(len(ren) == 1 and len(sel) == 1, 'C06.S5', 'adjusted open/close replace open/close in that order', fn.site(), key='C06.S5|adjust-cols')
             else:
